@@ -1184,6 +1184,8 @@ impl<T: PPGEvaluatorStrategy> PPGEvaluator<T> {
         // which exhausted the nesting limit (or the stack) at a few hundred jobs.
         let mut depth = depth;
         loop {
+            #[cfg(tyberiusprime_pypipegraph2_verif)]
+            crate::verif::note_depth(depth);
             self.inner_process_signals(depth)?;
             if self.signals.is_empty() {
                 break;
